@@ -74,8 +74,44 @@ def pass_rest_uses(tree):
     return uses
 
 
+def client_command_rejects():
+    """characters whose presence in `command` makes `BaseClient.command` raise BEFORE its first logging call
+    or stream write: `if "<c>" in command [or …]: raise …` at the top of the `if command:` block"""
+    import aioftp.client  # noqa
+
+    with open(sys.modules["aioftp.client"].__file__) as f:
+        tree = ast.parse(f.read())
+    out = []
+    for cls in [n for n in tree.body if isinstance(n, ast.ClassDef) and n.name == "BaseClient"]:
+        for fn in [n for n in cls.body if isinstance(n, ast.AsyncFunctionDef) and n.name == "command"]:
+            for top in fn.body:
+                if isinstance(top, ast.If) and isinstance(top.test, ast.Name) and top.test.id == "command":
+                    for st in top.body:
+                        # stop at the first statement that logs or writes
+                        src = ast.unparse(st)
+                        if isinstance(st, ast.If) and st.body and isinstance(st.body[0], ast.Raise) and not st.orelse:
+                            tests = st.test.values if isinstance(st.test, ast.BoolOp) and isinstance(st.test.op, ast.Or) else [st.test]
+                            for t in tests:
+                                if (
+                                    isinstance(t, ast.Compare)
+                                    and len(t.ops) == 1
+                                    and isinstance(t.ops[0], ast.In)
+                                    and isinstance(t.left, ast.Constant)
+                                    and isinstance(t.left.value, str)
+                                    and len(t.left.value) == 1
+                                    and isinstance(t.comparators[0], ast.Name)
+                                    and t.comparators[0].id == "command"
+                                ):
+                                    out.append(t.left.value)
+                            continue
+                        if "logger." in src or ".write(" in src:
+                            break
+    return out
+
+
 def gen_logs():
     tree = _server_tree()
+    rej = client_command_rejects()
     w = login_state_writers(tree)
     u = pass_rest_uses(tree)
     lines = [
@@ -88,6 +124,9 @@ def gen_logs():
         "",
         "/-- every call expression of `Server.pass_` in which its argument `rest` occurs -/",
         "def passRestUses : List String := %s" % lean_list([lean_str(x) for x in u], 1),
+        "",
+        "/-- characters that make `BaseClient.command` raise ValueError before it logs or sends anything -/",
+        "def clientCommandRejects : List Char := [%s]" % ", ".join("Char.ofNat %d" % ord(c) for c in rej),
         "",
         "end Generated",
         "",
